@@ -89,11 +89,14 @@ def judge_answer(st, ans, sig, logic, decls, blk):
     if ev is not None:
         ite_named = ite_named and ev["ite_hidden"]
     ite_any = any(cc.has_nonbool_ite(b, sig) for b in allb)
-    if ev is not None:
-        twice = ev["lost_bits"]
-    else:
-        hist = [cc.norm(b) for b in st.history]
-        twice = any(hist.count(cc.norm(b)) > 1 for b in allb)
+    # a current assertion whose term was asserted again later (the partition map then holds the later index only); with the
+    # trace: additionally a leaf mask bit that no partition carries
+    twice = (ev is None or ev["lost_bits"]) and cc.reasserted_later(st, logic, decls)
+
+    if ev is not None and ev["stale"]:
+        rec["viol"].append(("core-term-not-current:%s" % ("stale-refutation-after-pop" if st.unsat_frames_gone else "plain"),
+                            "the builder's extracted set contains a top-level formula that is not among the solver's current assertions (traced: core-all vs core-current)",
+                            dict(core_all=blk.all, core_current=blk.current)))
 
     def cause_sat():
         return "stale-refutation-after-pop" if stale else "term-asserted-twice" if twice else \
